@@ -53,6 +53,9 @@ type rtCheck struct {
 	StreamPerMethod [2]int
 	// Unions lets a share of the check's designs carry OneOf attributes in request/response bodies (gen/union.go).
 	Unions bool
+	// Multipart lets a share of the body-carrying methods be MultipartRequest() endpoints (gen/multipart.go), driven
+	// with the lab's multipart codec (rt/multipart.go).
+	Multipart bool
 }
 
 type rtWitness struct {
@@ -158,7 +161,7 @@ func runRuntime(c *rtCheck) {
 		var specs []*spec.Spec
 		for i := 0; i < n; i++ {
 			prof := c.Profiles[(idx+i)%len(c.Profiles)]
-			s := gen.Generate(run.Rand(2, uint64(idx+i)), fmt.Sprintf("%d", idx+i), gen.Opts{Profile: prof, Runtime: true, Thorough: run.Thorough(), Files: c.AllowFiles, Streams: c.Streams, Unions: c.Unions})
+			s := gen.Generate(run.Rand(2, uint64(idx+i)), fmt.Sprintf("%d", idx+i), gen.Opts{Profile: prof, Runtime: true, Thorough: run.Thorough(), Files: c.AllowFiles, Streams: c.Streams, Unions: c.Unions, Multipart: c.Multipart})
 			s.AddFeature("profile-" + prof)
 			specs = append(specs, s)
 		}
@@ -486,7 +489,7 @@ func countTaps(run *vc.Run, ex *rt.Exchange) {
 
 // genRuntimeSpec draws one runtime-drivable spec.
 func genRuntimeSpec(run *vc.Run, stream uint64, i int, prof string) *spec.Spec {
-	s := gen.Generate(run.Rand(stream, uint64(i)), fmt.Sprintf("%d", i), gen.Opts{Profile: prof, Runtime: true, Thorough: run.Thorough()})
+	s := gen.Generate(run.Rand(stream, uint64(i)), fmt.Sprintf("%d", i), gen.Opts{Profile: prof, Runtime: true, Thorough: run.Thorough(), Multipart: true})
 	s.AddFeature("profile-" + prof)
 	return s
 }
